@@ -16,6 +16,11 @@ import (
 type params struct {
 	NumReqs int `json:"num_reqs"`
 	Procs   int `json:"procs"`
+	// Kind, when set, makes every case of the batch an assembly of that kind ("net" | "dm"); a quarter of the batches.
+	Kind string `json:"kind,omitempty"`
+	// NetMsgs / DMMoves size the workloads of the network and data-mover assemblies.
+	NetMsgs int `json:"net_msgs,omitempty"`
+	DMMoves int `json:"dm_moves,omitempty"`
 }
 
 func main() {
@@ -24,23 +29,33 @@ func main() {
 		ID:    "C03",
 		Level: "exploration",
 		Rule: "each case is a PRNG-drawn assembly (memory hierarchies with caches/ROB/ideal/banked/DRAM, 1-3 drivers, interleaved modules; translation stacks with TLBs/MMU cache/GMMU/MMU, several processes sharing virtual addresses) executed in several fresh OS processes, the last of them as the second simulation of its process (after timing.ResetIDGenerator); write-back hierarchies get a mid-stream drain + address-filtered flush + enable " +
+			"a quarter of the batches use networks-on-chip built with the library connectors (2D/3D meshes with holes and shared tiles, PCIe trees, generic switch trees; 2-9 traffic agents with 1-3 device ports that send PRNG-drawn metadata messages and stall their receive side) " +
+			"and data movers (one mover between 1-2 interleaved ideal controllers per side, a requester that sends a script of single and queued moves with sizes that are multiples of both/one/neither granule) " +
 			"(Go randomises map iteration per process and per range statement); the running hash of the BeforeEvent trace, the running hash of every port event with full message metadata (IDs included), " +
 			"every entity's final checkpoint payload, end time and ID counter must coincide across executions. Non-trivial: the run handled >= 1000 events and has a cache or several memory modules; distinct by configuration",
 		Assumptions: []string{"nondeterminism that needs a different binary, GC timing or wall-clock dependence not reachable in a few executions is out of reach"},
 		Plan: func(tier string, seed int64) []kit.Batch {
 			nb, n := 16, 2
-			p := params{NumReqs: 300, Procs: 3}
+			p := params{NumReqs: 300, Procs: 3, NetMsgs: 300, DMMoves: 30}
 			if tier == "thorough" {
-				nb, n, p = 32, 20, params{NumReqs: 800, Procs: 5}
+				nb, n, p = 32, 20, params{NumReqs: 800, Procs: 5, NetMsgs: 800, DMMoves: 80}
 			}
 			var bs []kit.Batch
 			for i := 0; i < nb; i++ {
-				bs = append(bs, kit.Batch{Name: fmt.Sprintf("det%d", i), Seed: seed*6151 + int64(i), N: n, Params: kit.MkParams(p)})
+				q, name := p, fmt.Sprintf("det%d", i)
+				switch i % 8 { // a quarter of the batches: network and data-mover assemblies
+				case 3:
+					q.Kind, name = "net", fmt.Sprintf("net%d", i)
+				case 7:
+					q.Kind, name = "dm", fmt.Sprintf("dm%d", i)
+				}
+				bs = append(bs, kit.Batch{Name: name, Seed: seed*6151 + int64(i), N: n, Params: kit.MkParams(q)})
 			}
 			return bs
 		},
-		Run:         run,
-		MustObserve: []string{"executions", "port_events_hashed", "executions_as_second_run_in_one_process", "assemblies/with-mid-stream-filtered-flush"},
+		Run: run,
+		MustObserve: []string{"executions", "port_events_hashed", "executions_as_second_run_in_one_process", "assemblies/with-mid-stream-filtered-flush",
+			"assemblies/network", "assemblies/data-mover"},
 	})
 }
 
@@ -48,6 +63,21 @@ func run(b kit.Batch, r *kit.R) {
 	var p params
 	b.P(&p)
 	r.ForEach(b.N, func(c *kit.Case) {
+		switch p.Kind {
+		case "net":
+			cfg := sim.RandomNetCfg(c.Rng, p.NetMsgs)
+			c.Desc(cfg)
+			r.Count("assemblies/network", 1)
+			r.Count("assemblies/network/"+cfg.Family, 1)
+			Compare(c, "net", cfg, p)
+			return
+		case "dm":
+			cfg := sim.RandomDMCfg(c.Rng, p.DMMoves)
+			c.Desc(cfg)
+			r.Count("assemblies/data-mover", 1)
+			Compare(c, "dm", cfg, p)
+			return
+		}
 		if c.Rng.Intn(3) == 0 {
 			cfg := sim.RandomVMCfg(c.Rng, p.NumReqs)
 			c.Desc(cfg)
@@ -116,7 +146,7 @@ func Compare(c *kit.Case, kind string, cfg any, p params) {
 		}
 	}
 	if first.Events >= 1000 && (strings.Contains(string(cfgJSON), `"kind":"w`) || strings.Contains(string(cfgJSON), `"count":2`) ||
-		strings.Contains(string(cfgJSON), `"count":3`) || strings.Contains(string(cfgJSON), `"count":4`) || kind == "vm") {
+		strings.Contains(string(cfgJSON), `"count":3`) || strings.Contains(string(cfgJSON), `"count":4`) || kind == "vm" || kind == "net" || kind == "dm") {
 		c.Nontrivial(string(cfgJSON))
 	}
 	c.Sample(map[string]any{"cfg": cfg, "events": first.Events, "trace_hash": first.TraceHash, "msg_hash": first.Extra["msg_hash"], "executions": p.Procs})
